@@ -37,14 +37,14 @@ def race_summary(rep):
     return fns[:6], lines
 
 
-def run_caps(ctx, vh, menu_path, gor, caps, timeout, tmo_run):
+def run_caps(ctx, vh, menu_path, gor, caps, timeout, tmo_run, volleys=0):
     from concurrent.futures import ThreadPoolExecutor
 
     def one(cap):
         pre = ctx.path("conc-cap%s" % ("def" if cap < 0 else cap))
         sp = pre + ".sum.json"
         r = fp.run_harness(ctx, vh, ["pools-conc", "-menu", menu_path, "-out", pre, "-sum", sp, "-cap", str(cap), "-gor", gor,
-                                     "-private", "10", "-timeout", str(tmo_run)], timeout=timeout, race_env=True)
+                                     "-private", "10", "-timeout", str(tmo_run), "-volleys", str(volleys)], timeout=timeout, race_env=True)
         return cap, pre, sp, r
     env_procs = os.environ.get("GOMAXPROCS")
     os.environ["GOMAXPROCS"] = "4"
@@ -78,11 +78,12 @@ def run(ctx):
     mc, negs = fp.model_check(ctx, quick, descs=[2, 3, 8])
 
     gor = "2x700,8x260,32x80" if quick else "2x8000,3x6000,4x5000,8x3000,16x1600,32x900"
-    runs = run_caps(ctx, vh, menu_path, gor, CAPS, timeout=600 if quick else 2400, tmo_run=120 if quick else 600)
+    volleys = 400 if quick else 3000
+    runs = run_caps(ctx, vh, menu_path, gor, CAPS, timeout=600 if quick else 2400, tmo_run=120 if quick else 600, volleys=volleys)
     traces, calls_sum, overlap_runs, total_runs, ntypes = [], 0, 0, 0, 0
     race_seen = 0
     for cap, pre, sp, r in runs:
-        replay_obj = dict(kind="conc", cap=cap, gor=gor, seed=ctx.seed)
+        replay_obj = dict(kind="conc", cap=cap, gor=gor, seed=ctx.seed, volleys=volleys)
         if r is None:
             ctx.candidate(dict(src="conc", what="deadlock", cap=cap), "concurrent run (cache capacity %s) did not terminate" % cap, replay_obj)
             continue
@@ -135,7 +136,7 @@ def run(ctx):
                 cur_g = e.get("g")
             elif e["e"] == "ret" and e["d"] in ids:
                 combos.add((e["d"], cap, cur_g))
-        replay_obj = dict(kind="conc", cap=cap, gor=gor, seed=ctx.seed)
+        replay_obj = dict(kind="conc", cap=cap, gor=gor, seed=ctx.seed, volleys=volleys)
         for e in events:
             if e["e"] == "panic":
                 ctx.candidate(dict(src="conc", what="panic", car=menu["descs"][e["d"] - 1]["d"]["car"]),
@@ -173,7 +174,7 @@ def replay(ctx, vh, menu, menu_path):
     r = json.load(open(ctx.replay))["replay"]
     seed_env = r.get("seed", ctx.seed)
     ctx.seed = seed_env
-    runs = run_caps(ctx, vh, menu_path, r["gor"], [r["cap"]], timeout=1200, tmo_run=300)
+    runs = run_caps(ctx, vh, menu_path, r["gor"], [r["cap"]], timeout=1200, tmo_run=300, volleys=r.get("volleys", 0))
     n = 0
     for cap, pre, sp, res in runs:
         if res is None or "POOLS-DEADLOCK" in (res.stderr or ""):
